@@ -53,6 +53,9 @@ def shape_form(rng, i):
             Row("q", "text", "q5x", {"label": "in"}),
         ]),
         Row("q", "note", "q6", {"label": shapes[2], "image": "a.png"}),
+        # media file names built from an answer: mixed text-and-output content inside <value form="image|audio|video|big-image">
+        Row("q", "note", "q7", {"label": "M", rng.choice(["image", "audio", "video"]): rng.choice(["pic_${a}.png", "${a}.mp3", "clips/${b}_${c}.mp4", "x ${a}"]),
+                                "big-image::en" if False else "image::fr": "fr_${a}.png"}),
     ]
     f.choices = {"l1": [{"name": "x", "label::en": shapes[0] if "instance(" not in shapes[0] else "X", "label::fr": "F"},
                         {"name": "y", "label::en": shapes[3] if "instance(" not in shapes[3] else "Y", "label::fr": shapes[2] if "instance(" not in shapes[2] else "G"}]}
@@ -119,8 +122,51 @@ def deep_form(depth, rng):
     return f
 
 
+def thread_pass(ctx):
+    """The two layouts of one form produced at the same time in two threads (a service answering two requests): each equals the one produced alone."""
+    import sys
+    import threading
+    rounds = 6 if ctx.tier == "quick" else 40
+    rng = ctx.rng("threads")
+    form = gen.gen_form(rng, common.rich_cfg(rng, n_rows=(60, 90), p_label_ref=0.3, p_hint=0.5))
+    sheets = form.to_sheets()
+    alone = {pp: drive.convert_sheets(sheets, pretty=pp, args=form.args) for pp in (False, True)}
+    if not (alone[False].ok and alone[True].ok):
+        ctx.ctr("thread_form_rejected")
+        return
+    old = sys.getswitchinterval()
+    sys.setswitchinterval(1e-5)
+    try:
+        for rnd in range(rounds):
+            res = {}
+            bar = threading.Barrier(2)
+
+            def work(pp):
+                try:
+                    bar.wait(timeout=30)
+                except threading.BrokenBarrierError:
+                    pass
+                res[pp] = drive.convert_sheets(sheets, pretty=pp, args=form.args)
+            ts = [threading.Thread(target=work, args=(pp,)) for pp in (False, True)]
+            for t_ in ts:
+                t_.start()
+            for t_ in ts:
+                t_.join(120)
+            ctx.ctr("concurrent_layout_pairs")
+            ctx.case(sig=f"threads|{rnd}")
+            for pp in (False, True):
+                o = res.get(pp)
+                if o is None or not o.ok or o.xform != alone[pp].xform:
+                    ctx.viol("threads:layout-produced-concurrently-differs", f"round {rnd}: the {'pretty' if pp else 'compact'} document produced while the other layout was being produced in another thread "
+                             f"{'failed: ' + o.brief()[:120] if (o is not None and not o.ok) else 'differs from the one produced alone'}", common.witness(form, klass="threads"))
+                    return
+    finally:
+        sys.setswitchinterval(old)
+
+
 def run_shard(ctx):
     pl = plan(ctx.tier, ctx.seed)
+    thread_pass(ctx)
     for k, depth in enumerate([1, 5, 12, 20, 26, 27, 28, 31, 32, 33, 40, 64]):
         if ctx.mine(k):
             compare(ctx, deep_form(depth, ctx.rng("deep", depth)), "deep-nesting", f"depth{depth}")
